@@ -525,6 +525,16 @@ theorem tagListed_eq (tag : String) :
       · simp [hc]; simp at hc; simp [hc]
       · simp [hc]; simp at hc; simp [hc]
 
+theorem mapHas_false_of_get_none {β : Type} : ∀ (m : List (String × β)) (k : String), mapGet m k = none → mapHas m k = false
+  | [], _, _ => by simp [mapHas]
+  | (a, b) :: rest, k, h => by
+    by_cases hak : a = k
+    · simp [mapGet, List.find?_cons, hak] at h
+    · have h' : mapGet rest k = none := by simpa [mapGet, List.find?_cons, hak] using h
+      have := mapHas_false_of_get_none rest k h'
+      simp only [mapHas] at this ⊢
+      simp [hak, this]
+
 theorem addHosts_ok (tag : String) :
     ∀ (hs : List String) (m : List (String × String)), hs.Nodup → (∀ h ∈ hs, mapGet m h = none) →
       ∃ m', addHosts tag hs m = .ok m' ∧ ∀ x, mapGet m' x = none ↔ (mapGet m x = none ∧ x ∉ hs)
@@ -540,7 +550,7 @@ theorem addHosts_ok (tag : String) :
     obtain ⟨m', hm', hiff⟩ := addHosts_ok tag t (mapSet m h tag) hnd.2 hfree'
     refine ⟨m', ?_, fun x => ?_⟩
     · unfold addHosts
-      simp [hh, hm']
+      simp [mapHas_false_of_get_none m h hh, hm']
     · rw [hiff x, mapGet_mapSet]
       by_cases e : h = x
       · subst e; simp
